@@ -174,6 +174,7 @@ type mTx struct {
 	parent *mTx
 	done   bool
 	failed bool
+	date   time.Time // transaction_date(): the statement time of its first use, constant until the transaction ends
 }
 
 type mStore struct {
@@ -185,6 +186,24 @@ func newMStore(db *mDB) *mStore { return &mStore{db: db} }
 
 var errAborted = errors.New("current transaction is aborted, commands ignored until end of transaction block")
 var errInjected = errors.New("injected database failure")
+var errDeadlock = postgres.ErrDeadlockDetected
+var errSerialization = postgres.ErrSerialization
+
+// now models the SQL function transaction_date(): constant inside one (outermost) transaction,
+// the statement time otherwise.
+func (s *mStore) now() time.Time {
+	if s.tx == nil {
+		return time.Now()
+	}
+	root := s.tx
+	for root.parent != nil {
+		root = root.parent
+	}
+	if root.date.IsZero() {
+		root.date = time.Now()
+	}
+	return root.date
+}
 
 func (s *mStore) state() *mState {
 	if s.tx != nil {
@@ -357,7 +376,7 @@ func (s *mStore) CommitTransaction(ctx context.Context, tx *ledger.Transaction) 
 		id := s.db.txSeq
 		tx.ID = &id
 	}
-	now := time.Now()
+	now := s.now()
 	if tx.InsertedAt.IsZero() {
 		tx.InsertedAt = now
 	}
@@ -399,7 +418,7 @@ func (s *mStore) RevertTransaction(ctx context.Context, id uint64, at time.Time)
 		return cloneTx(t), false, nil
 	}
 	if at.IsZero() {
-		at = time.Now()
+		at = s.now()
 	}
 	t.RevertedAt = &at
 	t.UpdatedAt = at
@@ -428,7 +447,7 @@ func (s *mStore) UpdateTransactionMetadata(ctx context.Context, id uint64, m met
 			t.Metadata[k] = v
 		}
 		if at.IsZero() {
-			at = time.Now()
+			at = s.now()
 		}
 		t.UpdatedAt = at
 	}
@@ -447,7 +466,7 @@ func (s *mStore) DeleteTransactionMetadata(ctx context.Context, id uint64, key s
 	if modified {
 		delete(t.Metadata, key)
 		if at.IsZero() {
-			at = time.Now()
+			at = s.now()
 		}
 		t.UpdatedAt = at
 	}
@@ -495,7 +514,7 @@ func (s *mStore) UpsertAccounts(ctx context.Context, accounts ...ledger.AccountW
 		return err
 	}
 	st := s.state()
-	now := time.Now()
+	now := s.now()
 	for _, a := range accounts {
 		first := a.FirstUsage
 		if first.IsZero() {
@@ -555,7 +574,7 @@ func (s *mStore) InsertSchema(ctx context.Context, data *ledger.Schema) error {
 		}
 	}
 	if data.CreatedAt.IsZero() {
-		data.CreatedAt = time.Now()
+		data.CreatedAt = s.now()
 	}
 	cp := *data
 	st.schemas = append(st.schemas, &cp)
@@ -617,7 +636,7 @@ func (s *mStore) InsertLog(ctx context.Context, log *ledger.Log) error {
 		}
 	}
 	if log.Date.IsZero() {
-		log.Date = time.Now()
+		log.Date = s.now()
 	}
 	if s.db.ledger.HasFeature(features.FeatureHashLogs, "SYNC") && log.Hash == nil {
 		// SHA-256 chain hash: opaque, distinct per log id
